@@ -725,7 +725,7 @@ fn poll_recv_batch_spsc<T: Send>(
       return Poll::Ready(Ok(k));
     }
 
-    if shared.producer_dropped.load(Ordering::Acquire) {
+    if !shared.senders_alive() {
       let k = shared.read_batch(out, max);
       if k > 0 {
         if *is_registered {
